@@ -1,11 +1,11 @@
 package main
 
 import (
-	"os"
-	"sort"
 	"bytes"
 	"fmt"
 	"math/rand"
+	"os"
+	"sort"
 	"strings"
 )
 
